@@ -368,6 +368,10 @@ func (g *G) genAction(f *FlowSpec, nd *nodeDraft, loc J) J {
 		if len(flavoured) > 0 && t.Chance("start_flavoured", 2, 3) {
 			fl = flavoured[t.Pick("whichflavoured", len(flavoured))]
 		}
+		if t.Chance("start_stale_uuid", 1, 12) {
+			// a reference that kept the name of a flow but not its UUID (flows re-imported under new UUIDs)
+			fl = &FlowSpec{UUID: UUID(kFlow, 9000+t.Pick("stale_flow_uuid", 50)), Name: fl.Name}
+		}
 		a["flow"] = J{"uuid": fl.UUID, "name": fl.Name}
 		g.otherContacts(a)
 		a["exclusions"] = J{}
